@@ -26,7 +26,7 @@ type c19Case struct {
 }
 
 var c19Alphabet = []string{"mgrTick", "enable2", "enable3", "disable2", "disableAll", "lag2:unknown", "lag2:low", "lag2:mid", "lag2:high",
-	"lag3:high", "lag3:low", "status2:enabled", "ghost", "h2Dies", "h2Starts", "fileTo2", "fileFrom1", "adv5", "h2SettingsFail", "h2SettingsOK", "h2SecondSettingFails"}
+	"lag3:high", "lag3:low", "status2:enabled", "ghost", "h2Dies", "h2Starts", "fileTo2", "fileFrom1", "adv5", "h2SettingsFail", "h2SettingsOK", "h2SecondSettingFails", "h2Unreachable", "h2Reachable"}
 
 // events of the stale-snapshot searches: the hosts' health loops and the manager loop are separate
 // processes, so the records the Syncer classifies may have been READ before the manager's previous
@@ -210,6 +210,12 @@ func c19Run(r *vt.Run, c c19Case) (canon string) {
 					if len(rel) == 1 {
 						r.Count("syncs_leaving_one_optimising")
 					}
+					// (3') nothing mysync relaxed is left relaxed outside the registry
+					for _, x := range spec.HA {
+						if x != h.MasterKey() && w.Servers[x].Up && relaxed(x) && relaxedByMysync[x] && !registered(x) {
+							violate("3-dropped-only-after-settings-restored", fmt.Sprintf("%s runs with the relaxed settings mysync gave it (flush=%d sync_binlog=%d) and is not in the registry after the sync", x, w.Servers[x].FlushLog, w.Servers[x].SyncBinlog))
+						}
+					}
 					// (2) unknown or converged lag => master's settings and unregistered
 					tag2 := "/all-registered-hosts-up"
 					for _, x := range w.ZK.Children(vns + "/optimization_nodes") {
@@ -263,6 +269,11 @@ func c19Run(r *vt.Run, c c19Case) (canon string) {
 			case ev == "h2SettingsFail":
 				// h2 refuses changes of the durability settings (error 1205) until h2SettingsOK
 				w.Servers["h2"].FailOps = map[string]uint16{"SET_FLUSH_LOG": 1205, "SET_SYNC_BINLOG": 1205}
+			case ev == "h2Unreachable":
+				// h2's mysqld refuses connections for a while (it is not restarted: its settings stay as they are)
+				w.Servers["h2"].Up = false
+			case ev == "h2Reachable":
+				w.Servers["h2"].Up = true
 			case ev == "h2SecondSettingFails":
 				// only the second of the two statements fails: a start or a stop of the mode gets half way
 				w.Servers["h2"].FailOps = map[string]uint16{"SET_SYNC_BINLOG": 1205}
